@@ -320,7 +320,7 @@ SPECS = {
         runs=lambda tier, seed: [Run("traitprobe", "debug", [], shards=1)],
         also_custom=custom.c12_corpus,
         also_families=("corpus",),
-        technique="compiler-verdict observation: rustc's accept/reject verdict (with error-code classes) on a generated corpus of ~340 minimal programs in accept/reject pairs (zip/compare/split/pop/convert across lengths, incl. the inverted_zip entry points; generic contexts; outlive/alias pairs for every reference-returning API), plus run-time reflection of ~1100 trait facts decided by the real trait solver",
+        technique="compiler-verdict observation: rustc's accept/reject verdict (with error-code classes) on a generated corpus of ~490 minimal programs (214 accept, 278 reject) in accept/reject pairs (zip/compare/split/pop/convert across lengths, incl. the inverted_zip entry points; generic contexts; zero-sized elements in every length-checked conversion; every &mut-returning API fed a shared reference; outlive/alias pairs for every reference-returning API), plus run-time reflection of ~1100 trait facts decided by the real trait solver",
         level="other",
         level_text=("(a) traitprobe: the inherent-const-beats-trait-const idiom makes the real trait solver report, in a compiled binary, whether "
                     "concrete types satisfy bounds: GenericArray / GenericArrayIter / Box / & are Send, Sync, Copy, Clone exactly when the element "
@@ -428,7 +428,7 @@ SPECS = {
     ),
     "C14": dict(
         engine="hex",
-        technique="reference-model monitor: per-byte {:02x}/{:02X} concatenation truncated to the precision, for every precision on small N and boundary/random precisions on large N, in two feature builds, with the stack poisoned before every call (uninitialised scratch buffers become visible); ASan/memcheck on the SIMD build (release and debug), Miri on the fallback",
+        technique="reference-model monitor: per-byte {:02x}/{:02X} concatenation truncated to the precision, for every precision on small N and boundary/random precisions on large N, in two feature builds, with the stack poisoned before every call (uninitialised scratch buffers become visible); refusing sinks (capacity-limited and transient: what was accepted must be a prefix, a refusal must surface as Err); arrays of 32767..65536 bytes; ASan/memcheck on the SIMD build (release and debug), Miri on the fallback",
         level="exploration",
         level_text=("N in 0..=17, 31..=33, 255, 256, 1023, 1024, 1025, 2047..2049, 3000, 4096 (all three internal strategies and both thresholds from "
                     "both sides) x six byte patterns (all 256 byte values tiled, 0xFF, 0x0F, 0xF0, two random) x lower/upper case x every precision "
@@ -466,7 +466,7 @@ SPECS = {
         also_custom=custom.corpus_for("C08"),
         also_families=("corpus",),
         engine="order",
-        technique="call-order recorder: closures and element Clone/Default impls log (call number, arguments); compared with the same computation on slices for every receiver/argument form and every mix of droppable / plain / zero-sized / one-byte stateful-Default element types",
+        technique="call-order recorder: closures and element Clone/Default impls log (call number, arguments); compared with the same computation on slices for every receiver/argument form and every mix of droppable / plain / zero-sized / one-byte stateful-Default element types; resize grid (ten plain type pairs x owned/&/&mut/boxed map and owned/boxed zip) with a closure whose result depends on every earlier call",
         level="exploration",
         level_text=("For N in 0..=13, 15..17, 24, 31..33, 63..65, 100, 127..129, 255..257, 1000, 1024 (511..513, 1023 in thorough): generate via the "
                     "owned type, &S, &mut S and Box; map and fold in the four receiver forms; zip in the nine stack forms plus Box x Box; Clone and "
@@ -651,7 +651,7 @@ SPECS = {
         also_custom=custom.corpus_for("C09"),
         also_families=("corpus",),
         engine="seqops",
-        technique="reference-model monitor (Vec push/insert/pop/remove/split_at/extend/swap_remove) + address/extent checks + ownership ledger, exhaustive for N<=8; Miri/ASan for out-of-bounds copies",
+        technique="reference-model monitor (Vec push/insert/pop/remove/split_at/extend/swap_remove) + address/extent checks + ownership ledger, exhaustive for N<=8, element sizes 0..512 bytes incl. odd and tracked wide ones; Miri/ASan for out-of-bounds copies",
         level="exploration",
         level_text=("Every (N, K), (N, M), index (0..=N+1, usize::MAX) for N in 0..=8 and 9 element flavours (sizes 0, 1, 4, 8, 16, 24; "
                     "drop-tracked and plain) is executed and compared with the same operation on a Vec of the elements' identities; by-reference "
@@ -671,7 +671,7 @@ SPECS = {
         also_custom=custom.corpus_for("C06"),
         also_families=("corpus",),
         engine="iterq",
-        technique="reference-model monitor (VecDeque + [T;N]::into_iter twins) over exhaustive one-step transitions and seeded random sequences; ledger for overlap/skip; Debug with up to 4096 elements left under several flag sets; Miri/ASan",
+        technique="reference-model monitor (VecDeque + [T;N]::into_iter twins) over exhaustive one-step transitions and seeded random sequences; 22 std adaptor chains through by_ref() compared with the same chains over a protocol-only (next/next_back/size_hint) model iterator; ledger for overlap/skip; Debug with up to 4096 elements left under several flag sets; Miri/ASan",
         level="exploration",
         level_text=("Part A executes every operation with every argument (0..=len+2, usize::MAX) from every reachable (front, back) position for "
                     "N in 0..=8 and compares the return value and the successor state with a VecDeque of the same ids and with "
@@ -712,7 +712,7 @@ SPECS = {
     ),
     "C05": dict(
         engine="faults",
-        technique="fault enumeration (destructor bomb on every element x every iterator position x every argument; objects that survive the caught panic are observed and drained afterwards; clone_from/assignment targets) + ownership-ledger monitor; Miri/ASan see double free / use after free",
+        technique="fault enumeration (destructor bomb on every element x every iterator position x every argument; objects that survive the caught panic are observed and drained afterwards; clone_from/assignment targets; every owned/borrowed/boxed pairing of zip with the owned side dropped inside the closure) + ownership-ledger monitor; Miri/ASan see double free / use after free",
         level_text=("For every operation that drops elements internally, every iterator position, every skip count and every choice of the one "
                     "element whose destructor panics (N<=6 exhaustively), the ledger checks that no element is dropped twice or observed after "
                     "its drop; leaks are waived as the statement allows."),
